@@ -110,7 +110,7 @@ class FsPatch:
                 full = _fd_path(path, kw.get("dir_fd"))
                 if os.path.lexists(full):
                     sim.tick("script:unlink")
-                    sim.removed.append(os.path.relpath(full, sim.outdir))
+                    sim.note_removed(full)
             return r_unlink(path, *a, **kw)
 
         def rmdir(path, *a, **kw):
@@ -118,7 +118,7 @@ class FsPatch:
                 full = _fd_path(path, kw.get("dir_fd"))
                 if os.path.isdir(full) and not os.listdir(full):
                     sim.tick("script:rmdir")
-                    sim.removed.append(os.path.relpath(full, sim.outdir))
+                    sim.note_removed(full)
             return r_rmdir(path, *a, **kw)
 
         os.mkdir, os.unlink, os.rmdir = mkdir, unlink, rmdir
@@ -166,7 +166,8 @@ class Sim:
         self.active = False
         self.in_pipeline = False
         self.named = []           # directories the script named (and the harness removed)
-        self.removed = []         # existing directories the script's own rmtree removed
+        self.removed = []         # existing files / directories the script itself removed
+        self.removed_completed = []   # ... that belonged to a completed step (also: named by the script and removed on its advice)
         self.status = None
         self.invocations = 0
         score_args = ["--scorer", cfg["scorer"]] + (["--seed", "12"] if cfg["scorer"] == "GaussianDBALScorer" else [])
@@ -182,6 +183,14 @@ class Sim:
             raise Interrupt()
         self.count += 1
         self.labels.append(label)
+
+    def note_removed(self, full):
+        rel = os.path.relpath(full, self.outdir)
+        self.removed.append(rel)
+        st = step_of(rel)
+        mine = [q for q in self.emu.launches if step_of(q["outdir"]) == st]
+        if st is not None and mine and mine[-1]["completed"]:
+            self.removed_completed.append(rel)
 
     def pipeline(self, cmd, cwd=None, **kw):
         self.in_pipeline = True
@@ -244,6 +253,10 @@ class Sim:
                 break
             if isinstance(outcome, tuple):
                 self.named.append(os.path.relpath(outcome[1], self.outdir))
+                for q in self.emu.launches:
+                    if q["completed"] and os.path.abspath(q["outdir"]).startswith(os.path.abspath(outcome[1])) and os.path.isdir(q["outdir"]) \
+                            and [x for x in self.emu.launches if x["outdir"] == q["outdir"]][-1] is q:
+                        self.removed_completed.append(os.path.relpath(outcome[1], self.outdir))
                 shutil.rmtree(outcome[1])
                 continue
             status = outcome
@@ -308,12 +321,11 @@ def judge(sim):
         n_before = sum(1 for q in done if q["n"] < r["n"])
         if st != (n_before // B, n_before % B):
             out.append(("twice", "a launch is not for the step numbered 'steps completed before it'", list(st), [n_before // B, n_before % B]))
-    for d in sim.named:
-        if step_of(d) in steps[:]:
-            # a named directory is always removed before its step completes again: it must not have been complete then
-            pass
-    for d in sim.removed:
-        out.append(("deleted", "the script's rmtree removed an existing directory", d, "never on a reachable directory"))
+    # only the removal of (something inside) a COMPLETED step violates the property text; the script clearing a marker-less
+    # directory itself instead of naming it does not
+    for d in sim.removed_completed:
+        out.append(("deleted", "a file or directory of a completed step is removed (by the script or on its advice)", d,
+                    "completed steps are never removed"))
     truth = truth_table(sim.screen)
     facts, meta = {}, {}
     prev_adv = None
@@ -324,7 +336,7 @@ def judge(sim):
         sub = os.path.join(job, name)
         want_mode = "retrospective" if st[1] == 0 else "next_plate"
         if r["mode"] != want_mode or (st == (0, 0)) != (str(r["params"].get("initialize")).lower() == "true" and r["mode"] == "retrospective"):
-            out.append(("inputs", "the wrong workflow is launched for this step", [r["mode"], r["params"].get("initialize")], want_mode))
+            summary["unexpected_workflow"] = [list(st), r["mode"]]        # not stated by the property: a counter, not a finding
         # freshness: everything in the step directory was published by the launch that completed it
         present = sorted(os.listdir(sub))
         published = {fn: src for fn, src in r["published"]}
